@@ -466,3 +466,69 @@ def _value_arg_filter(fname):
 for _f in ("where", "reject", "find", "find_index", "has"):
     if load.find("liquid.builtin.filters.array:" + _f) is not None:
         _value_arg_filter(_f)
+
+
+# ---- `Template(source, undefined=...)`: two templates that differ only in their undefined type
+# ---- never share an environment (the type is read at render time)
+from contracts.C05 import implicit_env_param_obligation  # noqa: E402
+
+REPLAY_TEMPLATE_UNDEFINED = r'''
+def run(m):
+    from liquid import Template, StrictUndefined
+    from liquid.exceptions import UndefinedError
+    a = Template("[{{ nosuch }}]")
+    b = Template("[{{ nosuch }}]", undefined=StrictUndefined)
+    out = []
+    for t in (a, b):
+        try:
+            out.append(t.render())
+        except UndefinedError:
+            out.append("UndefinedError")
+    return {"violated": out != ["[]", "UndefinedError"], "observed": out, "witness": "undefined-type-shared-between-implicit-environments"}
+'''
+
+
+@structural("C16", "implicit-environments-are-keyed-on-undefined")
+def implicit_env_keyed_on_undefined():
+    return implicit_env_param_obligation("undefined", REPLAY_TEMPLATE_UNDEFINED)
+
+
+# ---- what an undefined prints as for diagnostics (repr) depends on its NAME only, for every class:
+# ---- tags that key state on the repr of their arguments (unnamed cycle groups) then treat the same
+# ---- missing name alike under the default and the strict types
+
+for _S in ("Undefined",) + tuple(STRICT):
+    def _mkrepr(S):
+        res = load.find_method(UMOD, S, "__repr__")
+        if res is None:
+            return
+
+        @contract(f"{res[0]}:{res[1]}.__repr__", prop="C16", name=f"{S}.__repr__[depends on the name only]")
+        def rp(c):
+            n = c.str("name")
+            u1 = c.obj(f"{UMOD}:{S}", S + "_1", name=n, token=NONE, obj=VConst(("sentinel", UMOD, "UNDEFINED")), hint=c.any("hint1"), msg=c.str("msg1"))
+            u2 = c.obj(f"{UMOD}:{S}", S + "_2", name=n, token=NONE, obj=VConst(("sentinel", UMOD, "UNDEFINED")), hint=c.any("hint2"), msg=c.str("msg2"))
+
+            def entry(eng, cc, func):
+                outs = []
+                for s1, r1 in eng.run(func, cc.st, [], {}, self_val=u1):
+                    if isinstance(r1, Raised):
+                        outs.append((s1, r1))
+                        continue
+                    for s2, r2 in eng.run(func, s1, [], {}, self_val=u2):
+                        outs.append((s2, r2 if isinstance(r2, Raised) else Ret(VTuple((r1.val, r2.val)))))
+                return outs
+            c.entry = entry
+            c.ensures("same-name-same-repr", lambda r: r.value.items[0].t == r.value.items[1].t)
+            c.raises()
+            c.replay("code", code=REPLAY_REPR)
+    _mkrepr(_S)
+
+REPLAY_REPR = r'''
+def run(m):
+    from liquid import Environment, FalsyStrictUndefined
+    src = "{% cycle 'a','b', x.m1 %}{% cycle 'a','b', x.m2 %}"
+    a = Environment().from_string(src).render(x={})
+    b = Environment(undefined=FalsyStrictUndefined).from_string(src).render(x={})
+    return {"violated": a != b, "observed": [a, b], "witness": "cycle-groups-differ-under-a-strict-undefined"}
+'''
